@@ -6,6 +6,14 @@ import re
 
 VERIF = os.path.dirname(os.path.dirname(os.path.abspath(__file__)))
 NOTES = {
+    'C09-15': 'round 9, first missed: no deleted graphic held its script inside an element named template; hand pairs added (the observer was namespace-aware already)',
+    'C01-16': 'round 9, first missed: no image had data-src / data-srcset without a src; lazy-loading markup added to the generated images',
+    'C03-16': 'round 9, first missed: no page quoted markup as text (without blanks) where the other had the live element; hand pairs (script, svg, textarea, select) added',
+    'C05-16': 'round 9, first missed: no title / script / style contained text that looks like a charset declaration; three such invisible edits added',
+    'C13-16': 'round 9, first missed: hash values were always valid UTF-8; an observer-only pass with undecodable percent-escapes around the right digest added',
+    'C06-15': 'round 9, first missed: no served body began with a byte-order mark; UTF-8 and UTF-16 BOM pairs under every declared charset added',
+    'C14-15': 'round 9, first missed: no pair had its only <title> elements in the body; added',
+    'C17-15': 'round 9, first missed: the purity workload had no blank documents; nine blank-sided calls with different views added',
     'C04-13': 'round 8, first missed: no link sat inside svg / template / rp / math; such containers added to the link pages',
     'C16-14': 'round 8, first missed: no link or image was the fallback content of video / audio / object; wrappers added',
     'C15-13': 'round 8, first missed: no tag had an attribute value wrapped over several lines; added to block and list item attributes',
@@ -97,8 +105,8 @@ def main():
     i = s.index('## 11. Seeded changes')
     head = '''## 11. Seeded changes and reverse fixes: which check catches what
 
-%d breaking changes were made by fresh sub-agents in eight rounds (2 per property per round from
-round 2 on; rounds 4 to 8 asked for changes that need something specific to manifest: an interleaving, a
+%d breaking changes were made by fresh sub-agents in nine rounds (2 per property per round from
+round 2 on; rounds 4 to 9 asked for changes that need something specific to manifest: an interleaving, a
 multi-request history, an unusual input, two cooperating edits), each agent given only the text of
 one property and a scratch worktree under `/tmp`; each change was confirmed by me
 (`harness/confirm_seed.sh`: the agent's demonstration passes on the unchanged tree and
